@@ -9,6 +9,8 @@ WRAP.namespace  : the wrapper's own effects (everything except the wrapped call)
                   writes state.*, temp.*, event.*, queue, defer_queue or the event object.
 DELEGATE.once   : every host override of dispatch/start_at reaches the plain event processor exactly once on every
                   path, whichever way `instrumented` is set.
+LIVE.snapshot   : the live-output wrappers iterate a snapshot of the step log (posts from other threads append to it while it is
+                  being printed: iterating the live deque raises and kills the object's thread only when live output is on).
 SIGSET.reflection: a REFLECTION query is sent to a handler only where a test that the chart is instrumented (and so the
                   handler is the spy wrapper that answers it) dominates the call.
 """
@@ -213,5 +215,9 @@ def check(run, model, tier):
     ok = all(instrumented_guard(g, n, inner.params[0]) for n in rtc_nodes) and bool(rtc_nodes)
     run.inst('WRAP.namespace', inner, 'spy_on touches rtc only when the chart is instrumented', ok,
              '' if ok else 'spy_on accesses chart.rtc on a path where chart.instrumented is false (plain processors have no rtc)', obligation=True)
+    # ---- live output on/off: the live wrappers must not be able to fail on a concurrently growing step log
+    from props.c21 import live_spy_loops
+    run.rule('LIVE.snapshot', 'live-output wrappers iterate a snapshot of the step log, once per line, after the step (other threads append to it)')
+    live_spy_loops(run, model, cg, {f.name: f for f in cg.factories}, rule='LIVE.snapshot')
     run.assume('H4: state handlers cannot reach the processor\'s or the wrappers\' locals')
     run.assume('wrappers registered by users (live callbacks) are outside the quantifier')
